@@ -615,3 +615,61 @@ func ZZ_C04_failedPodOnCanaryNode() {
 	nondet.Observe("podWrites", c.Count("create", "Pod")+c.Count("delete", "Pod"))
 	nondet.Reach("C04.failed.evicted-pod-present", len(c.Pods) == 2 && c.Pods[0].Status.Phase == corev1.PodFailed)
 }
+
+// ZZ_C04_activeLeavesUnfitCanaryNodeAlone: "the active replica set neither creates nor deletes pods
+// on those nodes" when a canary node is one the *active* template could not use: the new template
+// adds a toleration (or widens the node selector) and the canary was placed on a node only it can
+// run on — or the canary node is not in the node list at all any more.  The sync of the active
+// replica set leaves the canary pod alone, creates nothing on that node and serves the other node.
+func ZZ_C04_activeLeavesUnfitCanaryNodeAlone() {
+	c, ds, rsNew, rsOld := zzStore(2)
+	ds.Spec.Strategy.Canary = &datadoghqv1alpha1.ExtendedDaemonSetSpecStrategyCanary{}
+	datadoghqv1alpha1.DefaultExtendedDaemonSetSpec(&ds.Spec, datadoghqv1alpha1.ExtendedDaemonSetSpecStrategyCanaryValidationModeAuto)
+	ds.Status.ActiveReplicaSet = rsOld.Name
+	ds.Status.Canary = &datadoghqv1alpha1.ExtendedDaemonSetStatusCanary{ReplicaSet: rsNew.Name, Nodes: []string{zzNodeName(0)}}
+	why := nondet.String("canaryNodeUnfitForActiveBecause", "fit", "taint", "selector", "gone")
+	switch why {
+	case "taint":
+		c.Nodes[0].Spec.Taints = []corev1.Taint{{Key: "dedicated", Value: "canary", Effect: corev1.TaintEffectNoSchedule}}
+		rsNew.Spec.Template.Spec.Tolerations = []corev1.Toleration{{Key: "dedicated", Operator: corev1.TolerationOpExists}}
+	case "selector":
+		c.Nodes[1].Labels = map[string]string{"pool": "old"}
+		rsOld.Spec.Template.Spec.NodeSelector = map[string]string{"pool": "old"}
+	case "gone":
+		c.Nodes = c.Nodes[1:]
+	}
+	c.Pods = append(c.Pods,
+		zzPod("canary-pod", zzNodeName(0), rsNew.Name, zzHashNew, zzConcInt3(nondet.Int("canaryPod.binding", 0, 1)), corev1.PodRunning, true, nondet.Base().Add(-60*1e9)))
+	if nondet.Bool("activePodOnNode1") {
+		c.Pods = append(c.Pods, zzPod("active-pod-node1", zzNodeName(1), rsOld.Name, zzHashOld, 0, corev1.PodRunning, true, nondet.Base().Add(-3600*1e9)))
+	}
+	_, err := zzReconcile(zzReconciler(c, nondet.Bool("nodeAffinitySupported")), zzNS, rsOld.Name)
+	nondet.Assert("C04.unfit-canary-node.noerror", err == nil)
+	for _, e := range c.Log {
+		if e.Kind == "Pod" && e.Verb == "delete" {
+			nondet.Assert("C04.unfit-canary-node.active-deletes-nothing-there", e.Name != "canary-pod")
+		}
+		if e.Kind == "Pod" && e.Verb == "create" {
+			nondet.Assert("C04.unfit-canary-node.active-creates-nothing-there", e.Node != zzNodeName(0))
+		}
+	}
+	alive := false
+	for _, p := range c.Pods {
+		if p.Name == "canary-pod" && p.DeletionTimestamp == nil {
+			alive = true
+		}
+	}
+	nondet.Assert("C04.unfit-canary-node.canary-pod-kept", alive)
+	nondet.Observe("creates", c.Count("create", "Pod"))
+	nondet.Reach("C04.unfit-canary-node.tainted", why == "taint" && alive)
+	nondet.Reach("C04.unfit-canary-node.gone", why == "gone" && alive)
+}
+
+func zzConcInt3(x int) int {
+	for i := 0; i < 3; i++ {
+		if x == i {
+			return i
+		}
+	}
+	return 0
+}
